@@ -12,9 +12,9 @@ PPE = "ProcessPoolExecutor"
 KW = T.Map(T.Str, T.Obj, nullable=True)
 
 M.glob("_executor_lock", T.Ref("threading.RLock"))
-M.glob("_next_executor_id", T.Int, inv="_next_executor_id >= 0")
-M.glob("_executor", T.Ref(RPE, nullable=True))
-M.glob("_executor_kwargs", KW)
+M.glob("_next_executor_id", T.Int, inv="_next_executor_id >= 0", guard="_executor_lock")
+M.glob("_executor", T.Ref(RPE, nullable=True), guard="_executor_lock")
+M.glob("_executor_kwargs", KW, guard="_executor_lock")
 M.cls(RPE, {"executor_id": T.Int, "_submit_resize_lock": T.Ref("threading.RLock")}, bases=[PPE])
 S.assumption("A-singleton", "the module-level singleton state is only touched under _executor_lock and satisfies its representation invariant at entry: a "
                             "recorded executor has an id below the counter and recorded keyword arguments")
@@ -31,7 +31,7 @@ c.modifies(f"glob:{RE}._next_executor_id")
 
 # ---------------------------------------------------------------- construction
 PARAMS = [("max_workers", T.Opt(T.Int)), ("context", T.Ref("Context", nullable=True)), ("timeout", T.Opt(T.Real))]
-c = M.contract(f"{RPE}.__init__", props=["C09"])
+c = M.contract(f"{RPE}.__init__", props=["C09", "C08"])
 c.param("self", T.Ref(RPE)).param("submit_resize_lock", T.Ref("threading.RLock"))
 c.param("max_workers", T.Opt(T.Int), default=NONE).param("context", T.Ref("Context", nullable=True), default=NONE).param("timeout", T.Opt(T.Real), default=NONE)
 c.param("executor_id", T.Int, default=VInt(0)).param("job_reducers", T.Obj, default=NONE).param("result_reducers", T.Obj, default=NONE)
@@ -53,15 +53,19 @@ c.modifies("self._max_workers", "self._context", "self._env", "self._initializer
            f"glob:{PE}._system_limits_checked", f"glob:{PE}._system_limited", "glob:loky.backend.context.physical_cores_cache")
 
 # the override used by the base constructor: same routing as the base method, a larger call queue
-c = M.contract(f"{RPE}._setup_queues", props=["C09", "C15"])
+c = M.contract(f"{RPE}._setup_queues", props=["C09", "C15", "C08"])
 c.param("self", T.Ref(RPE)).param("job_reducers", T.Obj).param("result_reducers", T.Obj)
 c.requires("wakeup-exists", "self._executor_manager_thread_wakeup is not None")
 SQ = "call:ProcessPoolExecutor._setup_queues"
 c.ensures("queues/base-method-with-the-same-reducers-and-a-queue-sized-for-any-resize",
           f"log_count('{SQ}') == 1 and log_arg('{SQ}', 0, 1) is self and log_arg('{SQ}', 0, 2) is job_reducers and log_arg('{SQ}', 0, 3) is result_reducers and "
-          f"log_count('call:cpu_count') == 1 and log_arg('{SQ}', 0, 4) == 2 * log_arg('call:cpu_count', 0, 0) + EXTRA_QUEUED_CALLS")
+          f"log_count('call:cpu_count') == 1 and log_arg('{SQ}', 0, 4) == 2 * max(log_arg('call:cpu_count', 0, 0), self._max_workers) + EXTRA_QUEUED_CALLS")
 c.ensures("queues/routing-as-the-base-method", "self._call_queue._reducers is job_reducers and self._result_queue._reducers is result_reducers and "
           "fresh(self._call_queue) and fresh(self._result_queue)")
+# C08 "parallelism is delivered": the manager thread refills the call queue only when it is woken (a submit, a result); a call queue smaller than the number of
+# workers leaves workers idle while tasks wait for the next wake-up (the base constructor reaches this override through self._setup_queues)
+c.ensures("queues/call-queue-can-hold-one-task-per-worker", "self._call_queue._maxsize >= self._max_workers", prop="C08")
+c.replay_for("call-queue-can-hold-one-task-per-worker", "queue_capacity_starvation")
 c.raises_only("queues/no-exception")
 c.modifies("self._call_queue", "self._result_queue", "glob:loky.backend.context.physical_cores_cache")
 
@@ -96,7 +100,7 @@ i.inv("polls-only", "log_count('cq_put') == 0")
 i.iter_post("one-short-sleep-per-poll", "log_count('sleep') == 1")
 i.exits_under("jobs-resolved", P_JOBS, havoc=SHARED + ["G.proc_up"], tag="A-progress")
 
-c = M.contract(f"{RPE}._resize", props=["C10", "C09"])
+c = M.contract(f"{RPE}._resize", props=["C10", "C09", "C08"])
 c.param("self", T.Ref(RPE)).param("max_workers", T.Opt(T.Int))
 c.rely("registered-pids-are-live-children", "forall(Int, lambda k: implies(k in self._processes, G.pid_live[k]))", "A-pids")
 c.rely("a-started-executor-has-its-internals", "implies(self._executor_manager_thread is not None, self._processes_management_lock is not None and "
@@ -117,6 +121,9 @@ c.ensures("resize/manager-woken-after-the-top-up-so-that-it-watches-the-new-work
           f"implies(old(self._max_workers) != {MW} and old(self._executor_manager_thread) is not None and self._executor_manager_thread_wakeup is not None, "
           f"log_count('{WK}') == 1 and log_arg('{WK}', 0, 1) is self._executor_manager_thread_wakeup and log_before('{ADJ}', '{WK}') and "
           f"ordered('acquire', lambda l: l is self._flags.shutdown_lock, '{WK}', lambda *a: True) and exists_event('acquire', lambda l: l is self._flags.shutdown_lock))")
+c.ensures("resize/call-queue-can-hold-one-task-per-worker",
+          f"implies(old(self._executor_manager_thread) is not None and self._call_queue is not None, self._call_queue._maxsize >= {MW})", prop=["C08", "C10"])
+c.replay_for("resize/call-queue-can-hold-one-task-per-worker", "queue_capacity_starvation", mode="'resize'")
 c.ensures("resize/under-the-submit-resize-lock", "log_arg('acquire', 0, 0) is self._submit_resize_lock and log_pos('acquire', 0) == 0 and log_tags()[-1] == 'release'")
 c.at_call("mp.Queue.put", "sentinels-posted-under-the-management-lock-after-the-size-was-recorded-between-the-wait-and-the-top-up",
           f"held(self._processes_management_lock) and held(self._submit_resize_lock) and self._max_workers == {MW} and arg_0 is None and "
